@@ -68,6 +68,8 @@ impl ViNormal {
 	/// End the parse and clear the pending sequence
 	pub fn quit_parse(&mut self) -> Option<ViCmd> {
 		self.clear_cmd();
+		// An abandoned command must not leave its modifier flags to the next one
+		self.pending_flags = CmdFlags::empty();
 		None
 	}
 	pub fn try_parse(&mut self, ch: char) -> Option<ViCmd> {
